@@ -407,7 +407,7 @@ func (k *c20Checker) numbers() {
 // Inside the parentheses ">" is a comparison and "|" a getline pipe; printed
 // without them the same tokens would be a redirection.
 func (k *c20Checker) printLists() {
-	es := []string{"x", "y > z", "y < z", "y >= z", "y ? z : w", "y > z ? 1 : 2", "y ? z > 1 : w", `"c" | getline`, `"c" | getline v`, "v = y > z", "$y > z", "!y > z", "-y > z", "y in a", "(y > z)", "y z", "y z > w", "y++ > 1", "a[y > z]", "length(y > z)", "g(y > z)", "y > z > w", "y ~ z > w", "v += y > z"}
+	es := []string{"x", "y > z", "y < z", "y >= z", "y ? z : w", "y > z ? 1 : 2", "y ? z > 1 : w", `"c" | getline`, `"c" | getline v`, "v = y > z", "$y > z", "!y > z", "-y > z", "y in a", "(y > z)", "y z", "y z > w", "y++ > 1", `"c" | getline + 1`, `"c" | getline v - 1`, `"c" | getline v "s"`, `"c" | getline * 2`, `"c" | getline v ^ 2`, `"c" | getline v % 2 "t"`, "a[y > z]", "length(y > z)", "g(y > z)", "y > z > w", "y ~ z > w", "v += y > z"}
 	reds := []string{"", ` > "f"`, ` >> "f"`, ` | "c"`}
 	for _, e1 := range es {
 		if !k.mine() {
@@ -616,7 +616,7 @@ func init() {
 			"(B1) every chain of <= 3 [thorough 4] prefix operators {- + ! ++ -- $} x 4 operands x {none, ++, --} x 10 left contexts x 12 right contexts (operators that could fuse: - -x, - --x, x - -y, x-- - y, a / b / c, a ~ /=/, ! x ~ y); " +
 			"(B2) every byte value (alone, before/after a hex digit, doubled, after a truncated UTF-8 lead byte), every backslash escape of a printable character, 15 non-printable/astral runes x 6 tails, and every string literal of <= 3 [4] symbols over a 20-symbol alphabet (\", \\\\, /, NUL, \\n, \\t, DEL, 0xff, e-acute, U+00A0, U+2028, U+E0001, a b 0 7 U u x, space); " +
 			"(B3) every regex literal of <= 3 [4] pieces over 13 pieces (\\/ \\\\ = \\. [\\/] \" ...) in 14 contexts; (B4) 51 numeric literals x 9 contexts; " +
-			"(B6) parenthesised print/printf lists: 24 expressions (comparisons with >, ?: with > in a branch, cmd | getline, assignments of comparisons, calls and subscripts containing >) alone, in all ordered pairs and in triples x 4 redirections; " +
+			"(B6) parenthesised print/printf lists: 30 expressions (comparisons with >, cmd | getline as the leftmost operand of concatenation / arithmetic, ?: with > in a branch, cmd | getline, assignments of comparisons, calls and subscripts containing >) alone, in all ordered pairs and in triples x 4 redirections; " +
 			"(B5) 230 simple statements, 19 compound forms x 30 x 30 bodies, compound-in-compound over reduced bodies, in function/action/BEGIN/END containers; 43 x 43 x 2 item sequences. " +
 			"A state is one accepted source, a transition one source tried; distinct = distinct printed texts. At most 20 violations per signature and worker are stored individually; all failing cases of a signature are folded into one aggregate violation (count + digest) per worker, replayable by re-running that shard",
 		Assumptions: []string{
